@@ -278,7 +278,7 @@ AInv == CASE pr[1] = "bnq" -> BNAnchorPair(pr[2], pr[3])
 
 func c04RunAnchor(c *core.Ctx, maxSmall, nBig, ratMax int, workers int) error {
 	_, err := c.TLC(core.TLCOpts{Spec: "Rat", MCDefs: c04AnchorMC(maxSmall, nBig, ratMax), CfgName: fmt.Sprintf("anchor-native-ints<=%d", maxSmall),
-		Cfg: "INIT AInit\nNEXT ANext\nINVARIANT AInv\n", Workers: workers, Timeout: 9 * time.Minute})
+		Cfg: "INIT AInit\nNEXT ANext\nINVARIANT AInv\n", Workers: workers, Timeout: 40 * time.Minute})
 	return err
 }
 
@@ -1232,7 +1232,7 @@ func runC04(c *core.Ctx) error {
 	// (M)+(R) every tree of depth <= 2 over the alphabet
 	lits := c04Lits(c.Pick(0, 1))
 	_, err := c.TLC(core.TLCOpts{Spec: "ConstArith", MCDefs: c04MCDefs(lits, c04Un, c04Bin), CfgName: "trees-depth2-bfs",
-		Cfg: c04Cfg(2, 0, true, 1, 0, c04Invs), Workers: tlcW, OnLine: r.onLine, Timeout: 12 * time.Minute})
+		Cfg: c04Cfg(2, 0, true, 1, 0, c04Invs), Workers: tlcW, OnLine: r.onLine, Timeout: 40 * time.Minute})
 	if err != nil {
 		r.close()
 		return err
@@ -1243,7 +1243,7 @@ func runC04(c *core.Ctx) error {
 	// completion in EmitMod (TreeHash), so that only sampled trees are evaluated.
 	_, err = c.TLC(core.TLCOpts{Spec: "ConstArith", MCDefs: c04MCDefs(c04Lits(2), c04Un, c04Bin), CfgName: "trees-depth3-sim",
 		Cfg: c04Cfg(3, 1, true, c.Pick(12, 8), c.Seed, c04Invs), Simulate: true, SimNum: c.Pick(60, 700), SimDepth: 9, Seed: c.Seed,
-		Workers: tlcW, OnLine: r.onLine, Timeout: 12 * time.Minute})
+		Workers: tlcW, OnLine: r.onLine, Timeout: 40 * time.Minute})
 	if err2 := r.close(); err == nil {
 		err = err2
 	}
